@@ -130,7 +130,11 @@ def tuple_slots(c, ua, units=None):
 
 
 def sc(x, k):
-    return int(round(float(x) * k))
+    """float -> scaled integer; garbage (NaN, inf, beyond 32 bits) becomes a value no clause can accept."""
+    v = float(x) * k
+    if v != v or abs(v) > 2e9:
+        return -999999999
+    return int(round(v))
 
 
 def make_record(pa, c, d, al, D, de_int, scale, mode, tol, *, search, band=0, want_backend="", got_backend="",
